@@ -5,6 +5,7 @@ import (
 	"context"
 	"fmt"
 	"net/url"
+	"strings"
 	"testing"
 
 	bifrost_http "github.com/aperturerobotics/bifrost/http"
@@ -44,18 +45,18 @@ type c37Case struct {
 
 // strPool: generic strings plus near-duplicates that only differ in a part a careless comparison could drop
 // (transport-type prefix before '|', port, case, surrounding whitespace, trailing / leading separator)
-var strPool = []string{"", "a", "b", "a/b", "ab", "udp|10.0.0.1:4000", "ws|10.0.0.1:4000", "udp|10.0.0.1:4001", "10.0.0.1:4000", "|10.0.0.1:4000", "A", "a ", " a", "a/", "/a", "a/b/", "a//b"}
+var strPool = []string{"", "a", "b", "a/b", "ab", "udp|10.0.0.1:4000", "ws|10.0.0.1:4000", "udp|10.0.0.1:4001", "10.0.0.1:4000", "|10.0.0.1:4000", "A", "a ", " a", "a/", "/a", "a/b/", "a//b", "a%2Fb", "a%2fb"}
 
 var nStr = len(strPool)
 
 // strGroups: indexes of pool strings that are near-duplicates of each other
-var strGroups = [][]int{{5, 6, 7, 8, 9}, {1, 10, 11, 12, 13, 14}, {3, 15, 16}}
+var strGroups = [][]int{{5, 6, 7, 8, 9}, {1, 10, 11, 12, 13, 14}, {3, 15, 16, 17, 18}}
 
 // otherStr draws a pool index different from i; half of the time a near-duplicate of pool[i] if there is one.
 func otherStr(t *rapid.T, i int) int {
 	for _, g := range strGroups {
 		for _, x := range g {
-			if x == i && rapid.Bool().Draw(t, "near") {
+			if x == i && rapid.IntRange(0, 3).Draw(t, "near") != 0 {
 				j := g[rapid.IntRange(0, len(g)-1).Draw(t, "nearidx")]
 				if j != i {
 					return j
@@ -155,6 +156,12 @@ var dtypes = []dtype{
 	{name: "LookupHTTPHandler",
 		build: func(p params) directive.Directive {
 			u := &url.URL{Scheme: []string{"http", "https"}[p.N%2], Host: "h", Path: "/" + pstr(p.S1)}
+			if strings.Contains(pstr(p.S1), "%") {
+				// a percent-encoded path character: parsed as a client would, so that the escaped form is kept
+				if pu, err := url.Parse(u.Scheme + "://h/" + pstr(p.S1)); err == nil {
+					u = pu
+				}
+			}
 			if p.P1%2 == 1 {
 				u.RawQuery = "q=1"
 			}
@@ -203,7 +210,7 @@ func dtypeByName(n string) *dtype {
 }
 
 // strIdx: pool indexes, the transport-address group twice as likely
-var strIdx = rapid.OneOf(rapid.IntRange(0, nStr-1), rapid.IntRange(0, nStr-1), rapid.IntRange(5, 9))
+var strIdx = rapid.OneOf(rapid.IntRange(0, nStr-1), rapid.IntRange(0, nStr-1), rapid.IntRange(5, 9), rapid.SampledFrom([]int{3, 15, 16, 17, 18, 1, 10, 11, 12, 13, 14}))
 
 func genParams(t *rapid.T, l string) params {
 	return params{
@@ -222,7 +229,18 @@ func genC37(t *rapid.T) c37Case {
 	c.TypeB = c.TypeA
 	c.A = genParams(t, "a.")
 	c.B = c.A
-	switch rapid.IntRange(0, 6).Draw(t, "rel") {
+	switch rapid.IntRange(0, 7).Draw(t, "rel") {
+	case 7: // the two directives differ only in one string parameter, by a near-duplicate of it
+		c.TypeA = rapid.SampledFrom([]string{"LookupHTTPHandler", "LookupHTTPHandler", "DialTptAddr", "DialTptAddr", "HandleMountedStream", "SolicitProtocol", "LookupRpcService", "LookupRpcClient", "SignalPeer", "HandleSignalPeer"}).Draw(t, "strtype")
+		c.TypeB = c.TypeA
+		g := strGroups[rapid.IntRange(0, len(strGroups)-1).Draw(t, "grp")]
+		i := rapid.IntRange(0, len(g)-1).Draw(t, "gi")
+		j := (i + 1 + rapid.IntRange(0, len(g)-2).Draw(t, "gj")) % len(g)
+		if rapid.Bool().Draw(t, "second") {
+			c.A.S2, c.B.S2 = g[i], g[j]
+		} else {
+			c.A.S1, c.B.S1 = g[i], g[j]
+		}
 	case 0: // identical
 	case 1, 2, 3, 4: // exactly one field differs
 		switch rapid.IntRange(0, 5).Draw(t, "field") {
